@@ -160,6 +160,16 @@ def run_property(pid, tier, seed):
                   'detail': 'verifier inconclusive: ' + inconclusive[0][:300], 'fallback': True}
             fallback_obs.append(fo)
             native_jobs.append(('fallback', fo, orc, []))
+    # bounded stand-ins evaluated natively on every run (exec form of a contract over an enumerated / sampled domain)
+    native_obs = []
+    for e in cp.get('native', []):
+        if not tier_ok(e, tier):
+            continue
+        no = {'id': e['obligation'], 'fn': e.get('function', ''), 'kind': 'native-contract-evaluation', 'engine': 'native/rustc',
+              'status': 'undecided', 'text': e.get('text', ''), 'bounds': e.get('bounds', 'enumerated / sampled inputs'), 'harness': e['oracle']}
+        native_obs.append(no)
+        bounded.append(no)
+        native_jobs.append(('bounded', no, e['oracle'], e.get('args', [])))
     native_res = {}
     if native_jobs:
         jobs = [(j[2], j[3]) for j in native_jobs]
@@ -189,6 +199,19 @@ def run_property(pid, tier, seed):
             nc = [a['item'] for a in r.gen.auto_items if not a['autospec'] and ' fn ' not in a['item'] and '::' in a['item'] or (not a['autospec'] and a['item'].startswith(('fn ', 'impl ')))]
             if nc:
                 needs_contract[e['unit']] = nc
+    for o in native_obs:
+        res = native_res.get(id(o))
+        if res is None:
+            inconclusive.append('native oracle %s did not run' % o['harness'])
+        elif res.get('status') == 'pass':
+            o['status'] = 'discharged'
+            o['checks'] = res.get('evaluations')
+        elif res.get('status') in ('fail', 'crash'):
+            o['status'] = 'refuted'
+            o['detail'] = str(res.get('observed') or res.get('stderr'))[:500]
+            refuted.append(o)
+        else:
+            inconclusive.append('native oracle %s: %s' % (o['harness'], res.get('status')))
     for o in fallback_obs:
         res = native_res.get(id(o))
         if res is not None and res.get('status') in ('fail', 'crash'):
